@@ -144,7 +144,7 @@ def instances(r):
                        {"onset_tolerance": ot, "strict": strict, "offset_ratio": None,
                         "pitch_tolerance": r.choice([50.0, 100.0])}, ntn))
     # patterns
-    p = tasks.gen_pattern(r)
+    p = tasks.gen_pattern(r) if r.random() < 0.7 else tasks.gen_pattern_doubled(r)
     if p["ref"] and p["est"]:
         ntp = ("pat", repr(p["ref"]), repr(p["est"])) if len(p["ref"]) != len(p["est"]) \
             else None
